@@ -7,6 +7,7 @@ plan = {ops: [ {'child': {rc, stderr:{...}, noise, mon_files, ...}, 'failsafe': 
              | {'direct': {'text': {...}, 'files': ...}} ]}
 """
 import contextlib
+import os
 import html
 import io
 import re
@@ -16,7 +17,7 @@ import traceback
 import clastic.server as srv
 from clastic import flaw
 
-from sim.core.base import Check, RunResult, Streams, InvalidPlan, canon
+from sim.core.base import Check, RunResult, Streams, InvalidPlan, HarnessError, canon
 from sim.core.gateway import make_environ, call_app
 from sim.core.seams import Seams
 
@@ -270,13 +271,16 @@ class FakeSignal(object):
         return None
 
 
+CONC_WATCH = (os.path.join(os.path.abspath(os.environ.get('VERIF_REPO', '/repo')), 'clastic') + os.sep, '<sinter')
+
+
 class C20(Check):
     id = 'C20'
     world = 'supervisor'
     level = 'exploration'
     design_ref = 'DESIGN.md 3.13'
     runs = {'quick': 1500, 'thorough': 30000}
-    shrink_lists = (('ops',),)
+    shrink_lists = (('ops',), ('conc', 'ks'))
     rule = ('scripts of child-process lifetimes for the REAL run_simple(use_reloader=True)/restart_with_reloader: each child starts '
             '(exit 0/3) or crashes (exit 1) with stderr produced by really raising from a catalogue (13 exception types, SyntaxError '
             'reports, chained exceptions, messages with markup / template syntax / non-ASCII / multi-line, depth 1..900 so that the '
@@ -292,7 +296,7 @@ class C20(Check):
                   'stub': ['subprocess.Popen (scripted stderr + exit code)', 'make_server', 'thread', 'signal', 'reloader_loop', 'tty echo', 'test socket']}
     level_text = 'Seeded search over crash/restart scripts and error texts under the real supervisor loop; sampled.'
     level_note = 'Trusted: html.unescape as the inverse of the template escaping; the model of the 1024-line ring buffer.'
-    required_probes = ('error-text-names-monitored-file', 'ring-buffer-overflow', 'restart-after-change', 'failsafe-shutdown-before-restart', 'type-and-message-named',
+    required_probes = ('failsafe-under-other-interpreter-flags', 'two-browsers-on-a-fresh-failsafe-application', 'error-text-names-monitored-file', 'ring-buffer-overflow', 'restart-after-change', 'failsafe-shutdown-before-restart', 'type-and-message-named',
                        'markup-escaped', 'direct-non-text', 'truncated-traceback', 'syntaxerror-report', 'monitored-files-listed')
 
     # ---- generation --------------------------------------------------------
@@ -337,8 +341,11 @@ class C20(Check):
 
     # ---- oracle --------------------------------------------------------------
     def judge_page(self, res, app, method, path, text, files, tb_spec, truncated, mode):
-        K = 'C20/'
         ex = call_app(app, make_environ(method, path))
+        return self.judge_exchange(res, ex, method, path, text, files, tb_spec, truncated, mode)
+
+    def judge_exchange(self, res, ex, method, path, text, files, tb_spec, truncated, mode):
+        K = 'C20/'
         res.ev(mode, method, path, '->', ex.code, len(ex.body))
         ctx = '%s %s %s (text %r...)' % (mode, method, path, (text if isinstance(text, (str, bytes)) else repr(text))[:60])
         if ex.escaped is not None:
@@ -393,8 +400,135 @@ class C20(Check):
                     return res.violate(K + 'page/monitored-file-missing', ctx + ' -> %r is not listed' % f)
             res.probe('monitored-files-listed')
 
+    # ---- two browsers at once on a freshly built failsafe application ------------
+    def conc_setup(self, spec):
+        text = make_traceback(spec['tb'])
+        files = [resolve_file(f) for f in spec['files']]
+        return text, files
+
+    def conc_steps(self, spec):
+        from sim.core.sched import BatonScheduler
+        text, files = self.conc_setup(spec)
+        app = flaw.create_app(text, list(files))
+        s = BatonScheduler(['T0'], [], 'line', CONC_WATCH)
+        s.run({'T0': lambda: call_app(app, make_environ('GET', '/'))})
+        return s.steps
+
+    def extra_plans(self, tier, base_seed):
+        rng = Streams(base_seed)['conc']
+        for j in range(3 if tier == 'quick' else 12):
+            spec = {'tb': {'kind': 'traceback', 'exc': rng.choice(['KeyError', 'ValueError', 'CustomError']), 'msg': rng.choice(['plain', 'markup', 'colon']),
+                           'depth': rng.choice([1, 3]), 'chained': rng.random() < 0.3},
+                    'files': rng.sample(FILES, 4), 'paths': [rng.choice(['/', '/', '/x/y']), rng.choice(['/', '/', '/admin/'])]}
+            n = self.conc_steps(spec)
+            ks = list(range(1, n + 1, 2 if tier == 'quick' else 1))
+            for i in range(0, len(ks), 25):
+                yield {'world': 'supervisor', 'seed': base_seed, 'ops': [], 'conc': dict(spec, ks=ks[i:i + 25])}
+        # the failsafe is built by whatever interpreter the developer started: optimisation levels strip asserts (-O) and
+        # docstrings (-OO), UTF-8 mode changes the default encodings
+        for flags in ([['-OO'], ['-O'], ['-X', 'utf8']] if tier == 'quick' else [['-OO'], ['-O'], ['-X', 'utf8'], ['-OO', '-X', 'utf8'], ['-X', 'dev'], ['-B'], ['-s', '-OO']]):
+            yield {'world': 'supervisor', 'seed': base_seed, 'ops': [],
+                   'interp': {'flags': flags, 'tb': {'kind': 'traceback', 'exc': rng.choice(['KeyError', 'ValueError']), 'msg': rng.choice(['plain', 'markup']), 'depth': 2},
+                              'files': rng.sample(FILES[:8], 3), 'paths': ['/', '/some/page']}}
+
+    # ---- the supervisor's interpreter was started with other flags -----------------
+    INTERP_SCRIPT = r'''
+import json, sys
+out = {'stage': 'import'}
+try:
+    spec = json.loads(sys.stdin.read())
+    sys.path.insert(0, spec['repo'])
+    import warnings
+    warnings.simplefilter('ignore')
+    from clastic import flaw
+    out['stage'] = 'create'
+    app = flaw.create_app(spec['text'], list(spec['files']))
+    out['stage'] = 'request'
+    from werkzeug.test import Client
+    from werkzeug.wrappers import Response
+    pages = []
+    for path in spec['paths']:
+        r = Client(app, Response).get(path)
+        pages.append([r.status_code, r.get_data().decode('utf8', 'replace')])
+    out = {'stage': 'done', 'pages': pages}
+except BaseException as e:
+    out['error'] = '%s: %s' % (type(e).__name__, e)
+sys.stdout.write(json.dumps(out))
+'''
+
+    def execute_interp(self, plan):
+        import json
+        import subprocess
+        res = RunResult()
+        spec = plan['interp']
+        text = make_traceback(spec['tb'])
+        files = [resolve_file(f) for f in spec['files']]
+        env = dict(os.environ)
+        env.pop('PYTHONOPTIMIZE', None)
+        env.pop('SIM_STAGE', None)
+        p = subprocess.run([sys.executable] + spec['flags'] + ['-c', self.INTERP_SCRIPT], env=env, timeout=120, stdout=subprocess.PIPE, stderr=subprocess.PIPE,
+                           input=json.dumps({'repo': os.path.abspath(os.environ.get('VERIF_REPO', '/repo')), 'text': text, 'files': files, 'paths': spec['paths']}).encode('ascii'))
+        res.steps = 1
+        res.nontrivial = True
+        res.fire('interpreter_flags:' + ' '.join(spec['flags']))
+        res.probe('failsafe-under-other-interpreter-flags')
+        res.sigs.add('interp|%s' % ' '.join(spec['flags']))
+        try:
+            out = json.loads(p.stdout.decode('utf8'))
+        except ValueError:
+            raise HarnessError('interpreter %s gave no result: rc=%s %s' % (spec['flags'], p.returncode, p.stderr[-400:].decode('utf8', 'replace')))
+        res.ev('interp', ' '.join(spec['flags']), out['stage'], out.get('error', '')[:80])
+        ctx = 'python %s: create_app(<traceback text>, %d files), GET %s' % (' '.join(spec['flags']), len(files), spec['paths'])
+        if out['stage'] != 'done':
+            res.violate('C20/interpreter-flags/failsafe-not-available@%s' % out['stage'], ctx + ' -> %s' % out.get('error'))
+            return res
+        for (code, body), path in zip(out['pages'], spec['paths']):
+            if code != 200:
+                res.violate('C20/interpreter-flags/page-status-%s' % code, ctx + ' -> %s for %s' % (code, path))
+                return res
+            m = re.search(r'<pre>(.*?)</pre>', body, re.S)
+            if not m or html.unescape(m.group(1)) != text:
+                res.violate('C20/interpreter-flags/text-not-shown-escaped', ctx + ' -> the page of %s does not show the text' % path)
+                return res
+        return res
+
+    def execute_conc(self, plan):
+        from sim.core.sched import BatonScheduler
+        res = RunResult()
+        spec = plan['conc']
+        text, files = self.conc_setup(spec)
+        for k in spec['ks']:
+            app = flaw.create_app(text, list(files))       # the application the supervisor has just built: nobody has asked it yet
+            got = {}
+
+            def task(name, path):
+                def run():
+                    got[name] = call_app(app, make_environ('GET', path))
+                return run
+            sched = BatonScheduler(['T0', 'T1'], [[k, 'T1']], 'line', CONC_WATCH)
+            sched.run({'T0': task('T0', spec['paths'][0]), 'T1': task('T1', spec['paths'][1])})
+            res.steps += 1
+            res.fire('preempt', len(sched.switches))
+            if sched.switches:
+                res.nontrivial = True
+                res.probe('two-browsers-on-a-fresh-failsafe-application')
+                res.sigs.add('conc|%s' % (sched.switches[0][3],))
+            if sched.errors:
+                res.violate('C20/conc/thread-raised:%s' % type(list(sched.errors.values())[0]).__name__, '%r' % (sched.errors,))
+                return res
+            for name, path in (('T0', spec['paths'][0]), ('T1', spec['paths'][1])):
+                self.judge_exchange(res, got[name], 'GET', path, text, files, spec['tb'], False,
+                                    'conc: first browser parked at its line %d, second served meanwhile; page of %s' % (k, name))
+                if res.violations:
+                    return res
+        return res
+
     # ---- execution ---------------------------------------------------------
     def execute(self, plan):
+        if plan.get('conc'):
+            return self.execute_conc(plan)
+        if plan.get('interp'):
+            return self.execute_interp(plan)
         res = RunResult()
         K = 'C20/'
         supervised = [op for op in plan['ops'] if 'child' in op]
